@@ -61,6 +61,11 @@ def run(ctx, replay=None):
         rv = run_tlc("MC_PBMTransport", vac, deadlock=False, timeout=600, tag="pbmtransport_vac")
         if rv.violated != "NeverCorrected":
             raise MachineryError("vacuity: flux correction never occurs in the exhaustive domain")
+        for comp in ("NeverScaledBothFaces", "AsBuiltTotalLimit"):
+            vac = T.write_cfg("pbmtransport_vac", [l.replace("Grids <- GridsDef", "Grids <- GridsQ") for l in lines if not l.startswith("INVARIANT")] + ["INVARIANT " + comp])
+            rv = run_tlc("MC_PBMTransport", vac, deadlock=False, timeout=600, tag="pbmtransport_vac")
+            if rv.violated != comp:
+                raise MachineryError("vacuity: %s is not violated in the exhaustive domain (the both-faces correction is never exercised)" % comp)
         cases = [c for c in D.gen_transport(ctx.rng, ctx.tier) if fits(c)]
     obs = [D.transport_case(c) for c in cases]
     js = [D.to_json(c) for c in cases]
